@@ -587,4 +587,39 @@ def specialWrite (tyA2ml : Nat) : Nat → Nat → Val → List Char :=
 def removeUnknown {α : Type} (valid : α → Bool) (l : List α) : List α :=
   l.foldl (fun acc x => if valid x then acc ++ [x] else acc) []
 
+/-- the places of one module where IF_DATA blocks stand, in the order in which `remove_unknown_ifdata` visits them
+    (`ifdata.rs`: the module's own list, then per MEMORY_LAYOUT and MEMORY_SEGMENT of MOD_PAR, then per AXIS_PTS, BLOB,
+    CHARACTERISTIC, FRAME, FUNCTION, GROUP, INSTANCE, MEASUREMENT) -/
+structure Hosts (α : Type) where
+  module : List α
+  memoryLayout : List (List α)
+  memorySegment : List (List α)
+  axisPts : List (List α)
+  blob : List (List α)
+  characteristic : List (List α)
+  frame : List (List α)
+  function : List (List α)
+  group : List (List α)
+  inst : List (List α)
+  measurement : List (List α)
+
+/-- `remove_unknown_ifdata` on one module -/
+def Hosts.cleanup {α : Type} (valid : α → Bool) (h : Hosts α) : Hosts α :=
+  { module := removeUnknown valid h.module
+    memoryLayout := h.memoryLayout.map (removeUnknown valid)
+    memorySegment := h.memorySegment.map (removeUnknown valid)
+    axisPts := h.axisPts.map (removeUnknown valid)
+    blob := h.blob.map (removeUnknown valid)
+    characteristic := h.characteristic.map (removeUnknown valid)
+    frame := h.frame.map (removeUnknown valid)
+    function := h.function.map (removeUnknown valid)
+    group := h.group.map (removeUnknown valid)
+    inst := h.inst.map (removeUnknown valid)
+    measurement := h.measurement.map (removeUnknown valid) }
+
+/-- every list of IF_DATA blocks of the module -/
+def Hosts.lists {α : Type} (h : Hosts α) : List (List α) :=
+  [h.module] ++ h.memoryLayout ++ h.memorySegment ++ h.axisPts ++ h.blob ++ h.characteristic ++ h.frame ++ h.function ++
+    h.group ++ h.inst ++ h.measurement
+
 end A2l.IfData
